@@ -307,14 +307,42 @@ func (o *OSpec) Options() ojg.Options {
 
 // Render writes a value with the dynamic type of every leaf, members of maps sorted. Floats as bits.
 func Render(v any) string {
-	var sb strings.Builder
+	var sb renderBuf
 	render(&sb, v, 0)
 	return sb.String()
 }
 
-func render(sb *strings.Builder, v any, depth int) {
+// renderBuf: the text so far and the maps on the path from the root to the value being written. A map
+// that contains itself (a parser handing out the same map twice can build one) is written as
+// "<cycle>" where it recurs; a text beyond renderCap is cut with "<big>" (a value that shares one map
+// in many places is a tree of exponential size when written out).
+type renderBuf struct {
+	strings.Builder
+	path map[uintptr]bool
+}
+
+const renderCap = 16 << 20
+
+func (sb *renderBuf) enter(p uintptr) bool {
+	if sb.path[p] {
+		return false
+	}
+	if sb.path == nil {
+		sb.path = map[uintptr]bool{}
+	}
+	sb.path[p] = true
+	return true
+}
+
+func (sb *renderBuf) leave(p uintptr) { delete(sb.path, p) }
+
+func render(sb *renderBuf, v any, depth int) {
 	if depth > 200 {
 		sb.WriteString("<deep>")
+		return
+	}
+	if sb.Len() > renderCap {
+		sb.WriteString("<big>")
 		return
 	}
 	switch t := v.(type) {
@@ -351,6 +379,12 @@ func render(sb *strings.Builder, v any, depth int) {
 		if t == nil {
 			sb.WriteString("nil{}")
 			return
+		}
+		if p := reflect.ValueOf(t).Pointer(); !sb.enter(p) {
+			sb.WriteString("<cycle>")
+			return
+		} else {
+			defer sb.leave(p)
 		}
 		keys := make([]string, 0, len(t))
 		for k := range t {
@@ -393,6 +427,12 @@ func render(sb *strings.Builder, v any, depth int) {
 		if t == nil {
 			sb.WriteString("gnil{}")
 			return
+		}
+		if p := reflect.ValueOf(t).Pointer(); !sb.enter(p) {
+			sb.WriteString("<cycle>")
+			return
+		} else {
+			defer sb.leave(p)
 		}
 		keys := make([]string, 0, len(t))
 		for k := range t {
